@@ -187,7 +187,7 @@ func (fb *fileBuilder) printFile(ff protoreflect.FileDescriptor) ([]byte, error)
 		case protoreflect.BoolKind:
 			fb.p("option ", field.Name(), " = ", refl.Get(field).Interface(), ";")
 		case protoreflect.StringKind:
-			fb.p("option ", field.Name(), " = \"", refl.Get(field).Interface(), "\";")
+			fb.p("option ", field.Name(), " = ", optionreflect.QuoteString(refl.Get(field).String()), ";")
 		}
 	}
 	fb.addGap()
